@@ -32,12 +32,10 @@ def inst(scn, n, tiers, prop='VF_ACCT'):
     return {
         'name': 'scn%d_n%d' % (scn, n), 'src': '../C08/hist.cpp', 'engine': 'cbmc', 'shims': ['moodycamel'],
         'repo_sources': _SRC, 'rt_defs': {'VF_HAVE_THREAD_MODEL': 1}, 'models': ['aligned_alloc'],
-        'native_extra': ['harness/C47/native_stubs.cpp'],
-        'allow_externals': ['_ZN8dispenso6detail27registerFineSchedulerQuantaEv', '_ZN8dispenso6detail20allocSmallBufferImplEm', '_ZN8dispenso6detail22deallocSmallBufferImplEmPv'],
-        'defs': {'VF_N': n, 'VF_SCN': scn, 'VF_MQ_CAP': 6, prop: 1},
+        'defs': {'VF_N': n, 'VF_SCN': scn, 'VF_MQ_CAP': 6, prop: 1, 'VF_NODTOR': 1},
         'cflags': ['-DDISPENSO_TUNE_STEAL_RING_SHARING=1', '-DDISPENSO_TUNE_FIXED_SPIN_ITERS=2',
-                   '-DDISPENSO_TUNE_SPIN_CHECK_INTERVAL=1', '-DDISPENSO_TUNE_QUEUE_CHECK_INTERVAL=1'],
-        'unwind': 6, 'nthreads': 3, 'unwindset': {_R16: 17, _R4: 5}, 'timeout': 900, 'tiers': tiers,
+                   '-DDISPENSO_TUNE_SPIN_CHECK_INTERVAL=1', '-DDISPENSO_TUNE_QUEUE_CHECK_INTERVAL=1', '-DDISPENSO_DISABLE_CASCADE_WAKERANGE'],
+        'unwind': 3, 'nthreads': 1, 'spin_loops': True, 'unwindset': {_R16: 17, _R4: 5}, 'timeout': 900, 'tiers': tiers,
         'bounds': 'ThreadPool(%d), model queue capacity 6, steal-ring capacity 4; history: %s' % (n, _SCN[scn]),
     }
 
